@@ -3,7 +3,8 @@ From Coq Require Import ZArith List Bool String Ascii.
 From Coq Require Extraction.
 From Coq Require Import ExtrOcamlBasic ExtrOcamlString.
 From HV Require Import Model.SexpDefs Gen.GenRefine Spec.SmtQuerySpec Model.SmtTextModel Model.SolveModel
-  Model.SolveFsDefs Gen.GenSolveFs Model.SolveFsModel.
+  Model.SolveFsDefs Gen.GenSolveFs Model.SolveFsModel
+  Model.CexDefs Gen.GenCexHandler Model.CexModel Model.PathQueryDefs Gen.GenPathQuery Model.PathQueryModel.
 Import ListNotations.
 Open Scope Z_scope.
 
@@ -170,11 +171,51 @@ Definition c04_fs (a : list Z) : list Z :=
   | _ => []
   end.
 
+(* ---- CounterexampleHandler (Model/CexModel.v).  [is_shutdown; early_exit; future] with future
+   0 exception / 1 result() raises / 2 unsat / 3 sat valid / 4 sat invalid / 5 unknown / 6 err
+   -> [verdict (0 none / 1 valid / 2 invalid); the handler shuts the executor down] *)
+Definition c04_handler (a : list Z) : list Z :=
+  match a with
+  | [sh; ee; fk] =>
+      let f := if fk =? 0 then FExc else if fk =? 1 then FRaise
+               else FRes (if fk =? 2 then OUnsat else if fk =? 3 then OSat true EmptyString
+                          else if fk =? 4 then OSat false EmptyString else if fk =? 5 then OUnknown else OErr) in
+      let o := gen_get_solver_output (negb (sh =? 0)) f in
+      [match gen_callback_verdict (negb (ee =? 0)) o with NoModel => 0 | ValidCex => 1 | InvalidCex => 2 end;
+       if gen_callback_shutdown (negb (ee =? 0)) o then 1 else 0]
+  | _ => []
+  end.
+
+(* ---- Path.to_smt2 (Model/PathQueryModel.v).  [cache_solver] then operations: 0 c (append the
+   condition numbered c) / 1 n k1..kn (slice keeping these indices) / 2 (a new path extends this one)
+   -> conditions asserted by the query, -1, assertions of the path's own solver *)
+Fixpoint pq_ops (fuel : nat) (l : list Z) : list (qop Z) :=
+  match fuel with
+  | O => []
+  | S fuel' =>
+      match l with
+      | 0 :: c :: r => QAppend Z c :: pq_ops fuel' r
+      | 1 :: n :: r => let (ks, r') := take_n (Z.to_nat n) r in QSlice Z (map Z.to_nat ks) :: pq_ops fuel' r'
+      | 2 :: r => QExtend Z [] :: pq_ops fuel' r
+      | _ => []
+      end
+  end.
+
+Definition c04_pathq (a : list Z) : list Z :=
+  match a with
+  | cache :: r =>
+      let p := q_run Z (fun c => c) (fun l c => existsb (Z.eqb c) l) (q_empty Z) (pq_ops (List.length r) r) in
+      (q_query Z p (negb (cache =? 0)) ++ [-1] ++ q_solver Z p)%list
+  | [] => []
+  end.
+
 Definition table : list (string * (list Z -> list Z)) :=
   [ ("c04_parse_const"%string, c04_parse_const);
     ("c04_parse_var"%string, c04_parse_var);
     ("c04_print"%string, c04_print);
     ("c04_e2e"%string, c04_e2e);
-    ("c04_fs"%string, c04_fs) ].
+    ("c04_fs"%string, c04_fs);
+    ("c04_handler"%string, c04_handler);
+    ("c04_pathq"%string, c04_pathq) ].
 
 Extraction "_build/C04/entries.ml" table.
